@@ -1,23 +1,8 @@
 /* Known-size .lzma stream WITH end marker, input cut inside the marker (C06, C16): bounded, concrete file. */
 
-/*@obligation
-id: C06.eopm.split
-props: C06 C16
-entry: h_eopm
-defs: -DEOPM_LO=34 -DEOPM_HI=34
-tier: thorough
-unwind: 6200
-kind: bounded
-bound: the 37 bytes of tests/files/good-known_size-with_eopm.lzma (embedded), two-piece input split at position 34 (inside the end marker), 64-byte output buffer
-extra_src: liblzma/common/common.c liblzma/common/alone_decoder.c liblzma/lzma/lzma_decoder.c liblzma/lz/lz_decoder.c
-cbmc: --no-malloc-may-fail
-objbits: 12
-fn: lzma_decode alone_decode lz_decode lzma_code
-sentinels: 1
-expect: 20
-timeout: 1500
-desc: the valid file good-known_size-with_eopm.lzma (uncompressed size field 13 AND an end-of-payload marker) decoded through lzma_alone_decoder + lzma_code with the input delivered in two pieces: for every split point the result (LZMA_STREAM_END, 13 bytes 'Hello\nWorld!\n') equals the one-piece result -- the outcome must not depend on where the input was cut, in particular not inside the end marker
-*/
+/* NOT REGISTERED: symbolic execution of the real lzma_decode on the embedded file needs the 6144-iteration probability
+ * initialisation unwound for every decoder (re)start and did not finish within 25 minutes even for a single split point.
+ * The finding itself is documented in DESIGN.md section 6.3. The harness is kept for reference. */
 
 #include "verif.h"
 #include <lzma.h>
